@@ -471,6 +471,9 @@ package rlwe
 //@ afunc Scale.Mul
 //@   trusted opaque at the abstract level: a scale
 
+//@ afunc Scale.Div
+//@   trusted opaque at the abstract level: a scale
+
 // ---- rlwe.Parameters (property C08): the encoding is a 4-byte length followed by that many bytes of
 // ---- JSON; on success exactly 4 + length bytes are consumed, whatever the chunking of the transport
 // ---- (buffer.Reader.Read may return fewer bytes than asked for without an error)
@@ -532,3 +535,13 @@ package rlwe
 //@ afunc GadgetCiphertext.BaseTwoDecompositionVectorSize
 //@   trusted opaque at the abstract level: a new slice with the number of power-of-two digits of every RNS component (reads only)
 //@   assigns
+
+//@ afunc Scale.Cmp
+//@   trusted the comparison of two scales is a function of their contents (cmpval names its outcome)
+//@   assigns
+//@   ensures result == cmpval(s, s1)
+
+//@ afunc Scale.Uint64
+//@   trusted the integer value of a scale is a function of its contents (uf_scale64 names it)
+//@   assigns
+//@   ensures result == uf_scale64(contentid(s))
